@@ -58,10 +58,12 @@ Definition domain (c : case) : bool :=
   | _ => false
   end.
 
-(* |num/den - n/m| <= 1e-12, all in integers; an undefined value (m = 0) must not come back finite *)
+(* |num/den - n/m| <= 1e-12, all in integers.  When the denominator is 0 (empty union for Jaccard, an empty marginal
+   for Forbes) the per-base value is undefined; the numerator is then 0 too, and the library's NumPy division 0/0 gives
+   nan: the Spec asks for exactly that (nan for 0/0, inf for n/0 with n <> 0), never a finite number. *)
 Definition frac_close (c : case) (nm : Z * Z) : bool :=
   let '(n, m) := nm in
-  if m =? 0 then negb (k_kind c =? 0)
+  if m =? 0 then (if n =? 0 then k_kind c =? 1 else k_kind c =? 2)
   else (k_kind c =? 0) && (0 <? k_den c)
        && (Z.abs (k_num c * m - n * k_den c) * 1000000000000 <=? k_den c * Z.abs m).
 
